@@ -371,6 +371,26 @@ def _stmt_start(toks, body, off):
     return toks[j + 1].start
 
 
+def _stmt_end(toks, body, off):
+    """char offset just after the `;` that ends the statement containing offset `off` (inside the fn body `body`)"""
+    ti = next((k for k in range(body + 1, toks[body].match) if toks[k].start >= off), None)
+    if ti is None:
+        return off
+    j = ti
+    end = toks[body].match
+    while j < end:
+        t = toks[j]
+        if t.kind == 'punct' and t.text in ('(', '[', '{') and t.match is not None and t.match > j:
+            j = t.match + 1
+            continue
+        if t.kind == 'punct' and t.text == ';':
+            return t.end
+        if t.kind == 'punct' and t.text == '}':
+            return t.start      # tail expression of a block: stay inside the block
+        j += 1
+    return off
+
+
 def _apply_fn(src, w, op, fn, modname):
     toks = src.toks
     text = src.text
@@ -481,6 +501,9 @@ def _apply_fn(src, w, op, fn, modname):
                 continue
             raise AnchorLost(f'{src.path}: needle `{needle}` #{nth} not in `{op["path"]}`')
         off = b_lo + occ[nth] + (0 if 'before' in pr else len(needle))
+        if 'after' in pr and pr.get('stmt'):
+            # the needle is only the beginning of a statement (`buf.put(`): the ghost block goes after that statement
+            off = _stmt_end(toks, body, b_lo + occ[nth])
         if 'before' in pr:
             # a ghost block is a statement: move back to the start of the statement that contains the needle (the needle may
             # sit in the middle of one after a refactoring, e.g. `match NEEDLE(..) {`)
